@@ -113,14 +113,15 @@ Print Assumptions C46_nonvacuous.
 (* Histories (round 2): option changes of web_password interleaved with requests.  The response
    to a request is the single-request response for the password configured by the option
    changes before it -- it does not depend on which requests (successful logins included)
-   came earlier.  The session cookie is the only carrier of earlier logins, and it is an
+   came earlier.  [st] is the WebAuth configuration (option empty?, _password); password_after folds
+   WebAuth.configure over the option changes of h1 only.  The session cookie is the only carrier of earlier logins, and it is an
    input of the request (q_cookie). *)
 Theorem C46_history_stateless :
   forall (St D : Type) (inner : nat -> meth -> St -> request -> St * (N * D))
          (av : bytes -> bytes -> bool) (hash_ok : bytes -> bool) (a : app)
-         (h1 : list step) (stored : bytes) (s : St) (q : request) (h2 : list step),
-  exists s1, nth_error (run_history St D inner av hash_ok a stored s (h1 ++ Request q :: h2)) (requests_in h1)
-             = Some (snd (handle St D inner av (password_after hash_ok stored h1) a s1 q)).
+         (h1 : list step) (st : bool * bytes) (s : St) (q : request) (h2 : list step),
+  exists s1, nth_error (run_history St D inner av hash_ok a st s (h1 ++ Request q :: h2)) (requests_in h1)
+             = Some (snd (handle St D inner av (password_after hash_ok st h1) a s1 q)).
 Proof. exact history_stateless. Qed.
 Print Assumptions C46_history_stateless.
 
@@ -128,17 +129,17 @@ Print Assumptions C46_history_stateless.
    occurs in a history: a revoked password stops working at the option change. *)
 Theorem C46_history_revoked_refused :
   forall (St D : Type) (inner : nat -> meth -> St -> request -> St * (N * D))
-         (av : bytes -> bytes -> bool) (hash_ok : bytes -> bool) (stored : bytes) (s : St)
+         (av : bytes -> bytes -> bool) (hash_ok : bytes -> bool) (st : bool * bytes) (s : St)
          (h1 : list step) (q : request) (h2 : list step),
-  not_static mitmweb q -> creds_invalid av (password_after hash_ok stored h1) q ->
-  exists rs, nth_error (run_history St D inner av hash_ok mitmweb stored s (h1 ++ Request q :: h2)) (requests_in h1) = Some rs
+  not_static mitmweb q -> creds_invalid av (password_after hash_ok st h1) q ->
+  exists rs, nth_error (run_history St D inner av hash_ok mitmweb st s (h1 ++ Request q :: h2)) (requests_in h1) = Some rs
     /\ rs_cookie rs = false /\ (forall d, rs_body rs <> BInner d)
     /\ (rs_status rs = 400 \/ rs_status rs = 403 \/ rs_status rs = 404 \/ rs_status rs = 405)%N.
 Proof. exact history_revoked_refused. Qed.
 Print Assumptions C46_history_revoked_refused.
 
 Theorem C46_history_nonvacuous :
-  map rs_status (run_history nat unit unit_inner no_argon (fun _ => true) mitmweb secret O rotate_history)
+  map rs_status (run_history nat unit unit_inner no_argon (fun _ => true) mitmweb (false, secret) O rotate_history)
   = [200; 403; 200]%N.
 Proof. exact history_nonvacuous. Qed.
 Print Assumptions C46_history_nonvacuous.
